@@ -1,52 +1,223 @@
 /* Contracts for the LP-format reader helpers (C13; LPFreadValue also serves C12).
- * The line is ANY buffer of n <= CAP bytes (CAP > SOPLEX_LPF_MAX_LINE_LEN) with a NUL at index g_len; pos = line + off.
- * "For all k" statements use the ghost index g_k (token-relative). */
+ *
+ * The line is ANY buffer of n <= CAP bytes (CAP > SOPLEX_LPF_MAX_LINE_LEN) holding a NUL at index g_len, and
+ * pos = line + off with 0 <= off <= g_len.  (g_len need not be the FIRST NUL: the contracts hold for every NUL
+ * position at or after pos, in particular for strlen.)  Memory safety of every access in the sliced bodies is
+ * checked by --bounds-check/--pointer-check against exactly this n-byte object and against the functions'
+ * local scratch arrays; the line is in no assigns clause, so every write to it would be a violation as well.
+ * "For all k" statements use the ghost index g_k (relative to pos) with v_k == pos[g_k] on entry. */
 #include "verif_c.h"
 #include "constants.h"
 #ifndef CAP
 #define CAP 9000
 #endif
-char* gp_line; char** gpp_pos; int g_len, g_off, g_k, g_calls, g_tl, g_arg_inrange, g_num, g_added; char v_k, v_arg_k, v_arg_end; double v_ret;
+char* gp_line; char** gpp_pos; const char* gp_arg;
+int g_len, g_off, g_k, g_calls, g_tl, g_num, g_added, g_add_same, g_cadded, v_nret;
+char v_k, v_arg_k, v_arg_end, v_arg_0; double v_ret;
 char nondet_char(void);
-static void havoc_ghosts(void) { v_arg_k = nondet_char(); v_arg_end = nondet_char(); g_len = nondet_int(); g_off = nondet_int(); g_k = nondet_int(); g_tl = nondet_int(); g_num = nondet_int(); }
+static void havoc_ghosts(void)
+{
+   g_len = nondet_int(); g_off = nondet_int(); g_k = nondet_int(); g_tl = nondet_int(); g_num = nondet_int();
+   v_k = nondet_char(); v_arg_k = nondet_char(); v_arg_end = nondet_char(); v_arg_0 = nondet_char();
+   g_add_same = nondet_int(); v_nret = nondet_int();
+}
 
 #define IS_DIGIT(c) ('0' <= (c) && (c) <= '9')
+#define IS_ALPHA(c) (('A' <= (c) && (c) <= 'Z') || ('a' <= (c) && (c) <= 'z'))
 #define IS_SPACE(c) ((c) == ' ' || (c) == '\t' || (c) == '\n' || (c) == '\r')
 #define IS_SENSE(c) ((c) == '<' || (c) == '>' || (c) == '=')
 #define IS_VALUE(c) (IS_DIGIT(c) || (c) == '+' || (c) == '-' || (c) == '.')
 #define LOWER(c)    (('A' <= (c) && (c) <= 'Z') ? (c) + 32 : (c))
+/* the characters that may start a column name: letters and  ! " # $ % & ( ) / , ; ? @ _ ' ` { } | ~  */
+#define IS_NAMESTART(c) (IS_ALPHA(c) || (c) == '!' || (c) == '"' || (c) == '#' || (c) == '$' || (c) == '%' || (c) == '&' \
+                         || (c) == '(' || (c) == ')' || (c) == '/' || (c) == ',' || (c) == ';' || (c) == '?' || (c) == '@' \
+                         || (c) == '_' || (c) == '\'' || (c) == '`' || (c) == '{' || (c) == '}' || (c) == '|' || (c) == '~')
+/* the characters that end a column name:  + - . < > = blank */
+#define IS_NAMEDELIM(c) ((c) == '+' || (c) == '-' || (c) == '.' || (c) == '<' || (c) == '>' || (c) == '=' || (c) == ' ')
+
 /* the line: n bytes, NUL at g_len, pos = line + off somewhere in [0, g_len] */
 #define LINE_OK(line, n, off) (0 < (n) && (n) <= CAP && __CPROVER_is_fresh(line, n) && 0 <= g_len && g_len < (n) && (line)[g_len] == 0 \
                                && 0 <= (off) && (off) <= g_len && g_off == (off))
+/* the ghost index ranges over the text after pos */
+#define GHOST_K(line, off) (0 <= g_k && (g_k < g_len - (off) ? v_k == (line)[(off) + g_k] : 1))
+#define FRESH_OUT(p) __CPROVER_is_fresh(p, sizeof(int))
+/* pos ends inside the line */
+#define POS_IN_LINE(off, out) ((off) <= (out) && (out) <= g_len)
 
+/* ======================================================================================================= */
+#ifdef INST_isValue
+int w_isValue(const char* line, int n, int off)
+__CPROVER_requires(LINE_OK(line, n, off))
+__CPROVER_assigns()
+__CPROVER_ensures((__CPROVER_return_value != 0) == IS_VALUE(line[off]))
+;
+void h_isValue(void) { const char* line; int n, off; havoc_ghosts(); w_isValue(line, n, off); CANARY(); }
+#endif
+
+#ifdef INST_isSense
+int w_isSense(const char* line, int n, int off)
+__CPROVER_requires(LINE_OK(line, n, off))
+__CPROVER_assigns()
+__CPROVER_ensures((__CPROVER_return_value != 0) == IS_SENSE(line[off]))
+;
+void h_isSense(void) { const char* line; int n, off; havoc_ghosts(); w_isSense(line, n, off); CANARY(); }
+#endif
+
+#ifdef INST_isColName
+int w_isColName(const char* line, int n, int off)
+__CPROVER_requires(LINE_OK(line, n, off))
+__CPROVER_assigns()
+__CPROVER_ensures((__CPROVER_return_value != 0) == IS_NAMESTART(line[off]))
+__CPROVER_ensures(line[off] == 0 ==> __CPROVER_return_value == 0)
+;
+void h_isColName(void) { const char* line; int n, off; havoc_ghosts(); w_isColName(line, n, off); CANARY(); }
+#endif
+
+#ifdef INST_isInfinity
+/* [+-]inf, case-insensitive; must not read behind the terminator (the && chain stops at the first mismatch) */
+int w_isInfinity(const char* line, int n, int off)
+__CPROVER_requires(LINE_OK(line, n, off))
+__CPROVER_assigns()
+__CPROVER_ensures((__CPROVER_return_value != 0) == ((line[off] == '-' || line[off] == '+') && LOWER(line[off + 1]) == 'i'
+                                                     && LOWER(line[off + 2]) == 'n' && LOWER(line[off + 3]) == 'f'))
+__CPROVER_ensures(__CPROVER_return_value != 0 ==> off + 4 <= g_len)
+;
+void h_isInfinity(void) { const char* line; int n, off; havoc_ghosts(); w_isInfinity(line, n, off); CANARY(); }
+#endif
+
+#ifdef INST_isFree
+/* "free", case-insensitive; the caller then does pos += 4, which must stay inside the line */
+int w_isFree(const char* line, int n, int off)
+__CPROVER_requires(LINE_OK(line, n, off))
+__CPROVER_assigns()
+__CPROVER_ensures((__CPROVER_return_value != 0) == (LOWER(line[off]) == 'f' && LOWER(line[off + 1]) == 'r'
+                                                     && LOWER(line[off + 2]) == 'e' && LOWER(line[off + 3]) == 'e'))
+__CPROVER_ensures(__CPROVER_return_value != 0 ==> off + 4 <= g_len)
+;
+void h_isFree(void) { const char* line; int n, off; havoc_ghosts(); w_isFree(line, n, off); CANARY(); }
+#endif
+
+/* ======================================================================================================= */
+#ifdef INST_readSense
+/* <, >, =, ==, <=, =<, >=, =>  then one optional blank.  Every call site checks LPFisSense(pos) first. */
+#define TWO(line, off) (IS_SENSE((line)[(off) + 1]))
+#define SLEN(line, off) (TWO(line, off) ? 2 : 1)
+int w_readSense(char* line, int n, int off, int* off_out)
+__CPROVER_requires(LINE_OK(line, n, off) && FRESH_OUT(off_out))
+__CPROVER_requires(IS_SENSE(line[off]))
+__CPROVER_assigns(gp_line, gpp_pos, *off_out)
+__CPROVER_ensures(POS_IN_LINE(off, *off_out) && off < *off_out)
+__CPROVER_ensures(__CPROVER_return_value == ((line[off + 1] == '<' || line[off + 1] == '>') ? line[off + 1] : line[off]))
+__CPROVER_ensures(*off_out == off + SLEN(line, off) + (IS_SPACE(line[off + SLEN(line, off)]) ? 1 : 0))
+;
+void h_readSense(void) { char* line; int n, off; int* off_out; havoc_ghosts(); w_readSense(line, n, off, off_out); CANARY(); }
+#endif
+
+/* ======================================================================================================= */
+#ifdef INST_hasKeyword
+/* KW_MIN / KW_MAX: number of characters of the keyword outside / including its optional [..] sections; KW_FIRST its
+ * first (mandatory) character.  (Given per instance in unit.json; the keyword literal itself is extracted from the tree.) */
+int w_hasKeyword(char* line, int n, int off, int* off_out)
+__CPROVER_requires(LINE_OK(line, n, off) && FRESH_OUT(off_out))
+__CPROVER_assigns(gp_line, gpp_pos, *off_out)
+__CPROVER_ensures(POS_IN_LINE(off, *off_out))
+__CPROVER_ensures(__CPROVER_return_value == 0 ==> *off_out == off)
+__CPROVER_ensures(__CPROVER_return_value != 0 ==> (KW_MIN <= *off_out - off && *off_out - off <= KW_MAX && LOWER(line[off]) == KW_FIRST))
+__CPROVER_ensures(__CPROVER_return_value != 0 ==> (line[*off_out] == 0 || IS_SPACE(line[*off_out]) || IS_SENSE(line[*off_out])))
+;
+void h_hasKeyword(void) { char* line; int n, off; int* off_out; havoc_ghosts(); w_hasKeyword(line, n, off, off_out); CANARY(); }
+#endif
+
+/* ======================================================================================================= */
+#ifdef INST_readInfinity
+/* contract of the callee (proved per keyword by the hasKeyword instances; here: instance hasKeyword_inf):
+ * pos is inside the line before and after, and never moves backwards */
+_Bool LPFhasKeyword(char** pos, const char* keyword)
+__CPROVER_requires(__CPROVER_pointer_in_range_dfcc(gp_line, *pos, gp_line + g_len))
+__CPROVER_assigns(*pos)
+__CPROVER_ensures(__CPROVER_pointer_in_range_dfcc(__CPROVER_old(*pos), *pos, gp_line + g_len))
+;
+/* every call site checks LPFisInfinity(pos) first */
+double w_readInfinity(char* line, int n, int off, int* off_out)
+__CPROVER_requires(LINE_OK(line, n, off) && FRESH_OUT(off_out))
+__CPROVER_requires((line[off] == '-' || line[off] == '+') && LOWER(line[off + 1]) == 'i' && LOWER(line[off + 2]) == 'n' && LOWER(line[off + 3]) == 'f')
+__CPROVER_assigns(gp_line, gpp_pos, *off_out)
+__CPROVER_ensures(POS_IN_LINE(off, *off_out) && off < *off_out)
+__CPROVER_ensures(__CPROVER_return_value == (line[off] == '-' ? -(SOPLEX_DEFAULT_INFINITY) : (SOPLEX_DEFAULT_INFINITY)))
+;
+void h_readInfinity(void) { char* line; int n, off; int* off_out; havoc_ghosts(); w_readInfinity(line, n, off, off_out); CANARY(); }
+#endif
+
+/* ======================================================================================================= */
 #ifdef INST_readValue
-/* token length as seen from the outside: the token cannot contain a blank, one optional blank is skipped */
+/* token length as seen from the outside: a number token contains no white space, and one optional blank is skipped */
 #define TOKLEN(line, off, out) (IS_SPACE((line)[(out) - 1]) ? (out) - (off) - 1 : (out) - (off))
 #define IS_TOKCHAR(c) (IS_DIGIT(c) || (c) == '+' || (c) == '-' || (c) == '.' || (c) == 'e' || (c) == 'E')
+/* pos == line here (off == 0): the buffer STARTS at pos, which is the tightest object the function can be given (any
+ * access in front of pos would be out of bounds); it also keeps the completely unwound copy loop at constant indices. */
 double w_readValue(char* line, int n, int off, int* off_out)
-__CPROVER_requires(LINE_OK(line, n, off) && __CPROVER_is_fresh(off_out, sizeof(int)))
+__CPROVER_requires(LINE_OK(line, n, off) && off == 0 && FRESH_OUT(off_out))
 __CPROVER_requires(IS_VALUE(line[off]))                                   /* every call site checks LPFisValue(pos) first */
-__CPROVER_requires(0 <= g_k && g_k < g_len - off && v_k == line[off + g_k] && 0 <= g_tl && g_tl <= g_len - off)
+__CPROVER_requires(GHOST_K(line, off) && g_k < g_len - off && 0 <= g_tl && g_tl <= g_len - off)
 __CPROVER_requires(g_calls == 0)
-__CPROVER_assigns(gp_line, gpp_pos, *off_out, g_calls, g_arg_inrange, v_arg_k, v_arg_end, v_ret)
+__CPROVER_assigns(gp_line, gpp_pos, gp_arg, *off_out, g_calls, v_arg_k, v_arg_end, v_ret)
 /* pos ends inside the line and has made progress */
-__CPROVER_ensures(off < *off_out && *off_out <= g_len)
+__CPROVER_ensures(POS_IN_LINE(off, *off_out) && off < *off_out)
 /* the token consists of number characters only and is not followed by a digit */
 __CPROVER_ensures(g_k < TOKLEN(line, off, *off_out) ==> IS_TOKCHAR(v_k))
 __CPROVER_ensures(!IS_DIGIT(line[off + TOKLEN(line, off, *off_out)]))
 /* atof is called at most once; if it is, it is handed exactly the token, NUL-terminated, and its result is returned */
 __CPROVER_ensures(g_calls <= 1)
-__CPROVER_ensures((g_calls == 1 && g_tl == TOKLEN(line, off, *off_out)) ==> v_arg_end == 0 && (g_k < g_tl ==> v_arg_k == v_k))
-__CPROVER_ensures(g_calls == 1 ==> __CPROVER_return_value == v_ret || (__CPROVER_return_value != __CPROVER_return_value && v_ret != v_ret))
-/* sign-only tokens (no digit anywhere): +-1 */
+__CPROVER_ensures((g_calls == 1 && g_tl == TOKLEN(line, off, *off_out)) ==> (v_arg_end == 0 && (g_k < g_tl ==> v_arg_k == v_k)))
+__CPROVER_ensures(g_calls == 1 ==> (__CPROVER_return_value == v_ret || (__CPROVER_return_value != __CPROVER_return_value && v_ret != v_ret)))
+/* tokens without any digit ("+", "-", ".", "-e", ...): atof is not called, the value is the sign */
 __CPROVER_ensures(g_calls == 0 ==> __CPROVER_return_value == (line[off] == '-' ? -1.0 : 1.0))
 __CPROVER_ensures((g_calls == 0 && g_k < TOKLEN(line, off, *off_out)) ==> !IS_DIGIT(v_k))
 ;
-void h_readValue(void)
-{
-   char* line; int n, off; int* off_out;
-   havoc_ghosts();
-   w_readValue(line, n, off, off_out);
-   CANARY();
-}
+void h_readValue(void) { char* line; int n, off; int* off_out; havoc_ghosts(); w_readValue(line, n, off, off_out); CANARY(); }
+#endif
+
+/* ======================================================================================================= */
+#ifdef INST_readColName
+/* name length as seen from the outside: a name never contains ' ' (it is a delimiter), so a trailing ' ' is the skipped blank */
+#define NAMELEN(line, off, out) (((out) > (off) && (line)[(out) - 1] == ' ') ? (out) - (off) - 1 : (out) - (off))
+/* No precondition on *pos: the BINARIES/INTEGERS sections call LPFreadColName without checking LPFisColName(pos). */
+int w_readColName(char* line, int n, int off, int have_empty, int* off_out)
+__CPROVER_requires(LINE_OK(line, n, off) && FRESH_OUT(off_out))
+__CPROVER_requires(GHOST_K(line, off) && 0 <= g_tl && g_tl <= g_len - off)
+__CPROVER_requires(g_calls == 0 && g_added == 0 && g_cadded == 0 && 0 <= g_num && g_num < 1000000000)
+__CPROVER_assigns(gp_line, gpp_pos, gp_arg, *off_out, g_calls, v_arg_k, v_arg_end, v_arg_0, v_nret, g_added, g_add_same, g_cadded)
+__CPROVER_ensures(POS_IN_LINE(off, *off_out))
+/* the name is the maximal prefix free of delimiters */
+__CPROVER_ensures(g_k < NAMELEN(line, off, *off_out) ==> (!IS_NAMEDELIM(v_k) && v_k != 0))
+__CPROVER_ensures(IS_NAMEDELIM(line[off + NAMELEN(line, off, *off_out)]) || line[off + NAMELEN(line, off, *off_out)] == 0)
+__CPROVER_ensures(*off_out == off + NAMELEN(line, off, *off_out) + (IS_SPACE(line[off + NAMELEN(line, off, *off_out)]) ? 1 : 0))
+/* the name set is asked exactly once, for exactly that name */
+__CPROVER_ensures(g_calls == 1)
+__CPROVER_ensures(g_tl == NAMELEN(line, off, *off_out) ==> (v_arg_end == 0 && (g_k < g_tl ==> v_arg_k == v_k)))
+/* known name: its index; unknown name: registered (name set and column set in step) iff an empty column was supplied, else -1 */
+__CPROVER_ensures(__CPROVER_return_value == (v_nret >= 0 ? v_nret : (have_empty ? g_num : -1)))
+__CPROVER_ensures(g_added == ((v_nret < 0 && have_empty) ? 1 : 0) && g_cadded == g_added && (g_added == 1 ==> g_add_same))
+;
+void h_readColName(void) { char* line; int n, off, have_empty; int* off_out; havoc_ghosts(); w_readColName(line, n, off, have_empty, off_out); CANARY(); }
+#endif
+
+/* ======================================================================================================= */
+#ifdef INST_hasRowName
+int w_hasRowName(char* line, int n, int off, int have_names, int* off_out)
+__CPROVER_requires(LINE_OK(line, n, off) && FRESH_OUT(off_out))
+__CPROVER_requires(GHOST_K(line, off))
+__CPROVER_requires(g_added == 0)
+__CPROVER_assigns(gp_line, gpp_pos, *off_out, g_added, g_add_same, v_arg_0)
+__CPROVER_ensures(POS_IN_LINE(off, *off_out))
+/* no colon: false, pos untouched */
+__CPROVER_ensures((*off_out == off && g_k < g_len - off) ==> v_k != ':')
+__CPROVER_ensures(*off_out == off ==> __CPROVER_return_value == 0)
+/* otherwise pos is just behind the FIRST colon */
+__CPROVER_ensures(*off_out != off ==> (line[*off_out - 1] == ':' && (g_k < *off_out - 1 - off ==> v_k != ':')))
+/* a name is registered iff true is returned and a name set was supplied; it is not empty and does not start with a blank */
+__CPROVER_ensures(g_added == ((__CPROVER_return_value != 0 && have_names) ? 1 : 0))
+__CPROVER_ensures(g_added == 1 ==> (v_arg_0 != 0 && v_arg_0 != ' '))
+;
+void h_hasRowName(void) { char* line; int n, off, have_names; int* off_out; havoc_ghosts(); w_hasRowName(line, n, off, have_names, off_out); CANARY(); }
 #endif
